@@ -20,6 +20,16 @@ fn check(prop: &str, tier: Tier) {
     match prop {
         "C09" | "C10" | "C11" | "C12" => check_dom(prop, tier),
         "C18" => check_c18(tier),
+        "C08" => {
+            let run = Run::new("C08", tier, "model_checking");
+            let cov = vh::c08::check(&run);
+            run.finish(cov, &["one spelling per logical property per instance; the unknown property has the same value type on every instance (one column has one wire type)", "defaults from our own walk of the reflection database, else the type's neutral value"]);
+        }
+        "C06" => {
+            let run = Run::new("C06", tier, "model_checking");
+            let cov = vh::c06::check(&run);
+            run.finish(cov, &["value alphabets per declared type (quick: 4 values per property, thorough: all)", "a DOM that neither format can write is outside the property; one that only one format can write is reported"]);
+        }
         "C15" => {
             let run = Run::new("C15", tier, "model_checking");
             let cov = vh::c15::check(&run);
@@ -352,6 +362,8 @@ fn replay(prop: &str, file: &std::path::Path) {
         }
         "C16" => simple_replay("C16", vh::c16::replay(case)),
         "C15" => simple_replay("C15", vh::c15::replay(case)),
+        "C06" => simple_replay("C06", vh::c06::replay(case)),
+        "C08" => simple_replay("C08", vh::c08::replay(case)),
         "C17" => {
             let vs = vh::c17::replay(case);
             for (k, w) in &vs {
